@@ -1,8 +1,8 @@
 SPECIFICATION Spec
 CONSTANTS
-  MaxRecs = 1
-  FlipStride = 1
-  Small = FALSE
+  MaxRecs = 2
+  FlipStride = 3
+  Small = TRUE
 CHECK_DEADLOCK FALSE
 INVARIANT CheckValue
 INVARIANT NewBatchRoundTrip
